@@ -403,7 +403,13 @@ def rule_own(env, shared):
                 al = _alias_locals(b, dl)
                 for bj, blk in enumerate(b.blocks):
                     tt = blk["term"]
-                    if blk["cleanup"] or tt["k"] != "drop" or tt["place"]["p"] or tt["place"]["l"] not in al:
+                    is_drop = (not blk["cleanup"] and tt["k"] == "drop" and not tt["place"]["p"] and tt["place"]["l"] in al)
+                    if not is_drop and not blk["cleanup"] and tt["k"] == "call":
+                        # `drop(taken)`: handed to std::mem::drop
+                        c3 = b.callee(bj)
+                        is_drop = c3 is not None and not c3.indirect and c3.key == "std::mem::drop" and any(
+                            ao["k"] in ("move", "copy") and not ao["place"]["p"] and ao["place"]["l"] in al for ao in tt["args"])
+                    if not is_drop:
                         continue
                     k = "OWN.f|%s|%s|taken-storage-dropped" % (nm, env.fname(b))
                     zeroed = False
@@ -1054,6 +1060,10 @@ def rule_leak(env, shared):
                         okdrop = True
                     if tt["k"] == "call":
                         c2 = db.callee(bj)
+                        if c2 and not c2.indirect and c2.key == "std::mem::drop" and any(
+                                ao["k"] in ("move", "copy") and not ao["place"]["p"] and ao["place"]["l"] in al
+                                for ao in tt["args"]):
+                            okdrop = True
                         if c2 and not c2.indirect and c2.key in LEAK_PRIMS:
                             for ao in tt["args"]:
                                 if ao["k"] in ("move", "copy") and not ao["place"]["p"] and ao["place"]["l"] in al:
